@@ -46,7 +46,7 @@ from pathlib import Path
 from src.core.base import BaseLintContext, BaseLintRule
 from src.core.registry import RuleRegistry
 from src.core.types import Violation
-from src.linter_config.ignore import get_ignore_parser
+from src.linter_config.ignore import clear_ignore_parser_cache, get_ignore_parser
 from src.linter_config.loader import LinterConfigLoader
 
 from .language_detector import detect_language
@@ -255,6 +255,9 @@ class Orchestrator:  # thailint: ignore[srp]
         self.project_root = project_root or Path.cwd()
         self.registry = RuleRegistry()
         self.config_loader = LinterConfigLoader()
+        # The parser is cached per process; a new orchestrator must read the project's current
+        # ignore patterns, not those an earlier orchestrator of this process loaded
+        clear_ignore_parser_cache()
         self.ignore_parser = get_ignore_parser(self.project_root)
 
         # Performance optimization: Defer rule discovery until first file is linted
